@@ -97,7 +97,7 @@ class C11(Prop):
         if stream == 'malformed':
             m = rng.choice(['lev', 'nan', 'empty', 'lev0'])
             if m == 'lev':
-                c['param'] = -rng.random()
+                c['param'] = rng.choice([-rng.random(), -1e-9, -1e-12, -5e-324, -2.0 ** -40])
             elif m == 'lev0':
                 c['param'] = 0.0
             elif m == 'nan':
